@@ -9,7 +9,9 @@ Inductive obs := ONoError | OFormat (line : Z) | OOther.
 Inductive case :=
 | CDelim (tys : list coltype) (m : mode) (k : Z) (file : list Z) (o : obs)      (* k = 0: whole-file read() *)
 | COneLine (f : fmt) (m : mode) (k : Z) (file : list Z) (o : obs)
-| CSpecOnly (expected : Z) (o : obs).   (* classes the model does not cover (column count): error required *)
+| CSpecOnly (expected : Z) (o : obs)    (* classes the model does not cover (column count): error required *)
+| CBigLine (expected : Z) (o : obs).   (* a file too large to hand over (more than 2^16 records): one diagnosed violation at a
+                                          known record; the reported line must be exactly that record's line *)
 
 Definition text_of (file : list Z) : list Z :=
   match file with [] => [] | _ => if last file 0 =? 10 then file else file ++ [10] end.
@@ -32,6 +34,7 @@ Definition spec_ok (c : case) : bool :=
   match c with
   | CDelim tys m k file o => obs_spec o (spec_line tys (text_of file))
   | COneLine f m k file o => obs_spec o (spec_oneline f (text_of file))
+  | CBigLine e o => match o with OFormat l => l =? e | _ => false end
   | CSpecOnly e o => match o with ONoError => false | _ => true end
       (* column-count violations are not diagnosed as such by the library: an error of any kind is required,
          the line clause of the property applies to the diagnosed classes only *)
@@ -47,4 +50,5 @@ Definition model_ok (c : case) : bool :=
       | _, _ => obs_matches o (model_oneline f m (eff_k k file) file)
       end
   | CSpecOnly _ _ => true
+  | CBigLine _ _ => true
   end.
